@@ -246,6 +246,9 @@ class Check:
         self.broken: list[dict] = []           # broken obligations/correspondences (need a search)
         self._distinct: set = set()
         self.notes: list[str] = []
+        if (REPLAYS / prop).is_dir():                 # replays of earlier runs are stale
+            for f in (REPLAYS / prop).glob("seed*.json"):
+                f.unlink()
 
     # --- proof side
     def proofs(self, prop_module: str, extra_modules: list[str] = ()):  # noqa
